@@ -73,7 +73,9 @@ package deepcopy
 
 import (
 	"fmt"
+	"go/token"
 	"go/types"
+	"regexp"
 	"strings"
 
 	"github.com/awalterschulze/goderive/derive"
@@ -269,9 +271,19 @@ func wrap(value string) string {
 	return value
 }
 
+// unsafeRoot finds the variable that holds the struct in the expression that reaches an unexported field of a struct of another package.
+var unsafeRoot = regexp.MustCompile(`(\w+)_v\.FieldByName\(`)
+
 func prepend(before, after string) string {
 	bs := strings.Split(before, ".")
 	b := strings.Replace(bs[0], "*", "", -1)
+	if !token.IsIdentifier(b) {
+		// not a variable or a field of one, but a field that is reached through reflect and unsafe: named after the struct it is a field of
+		b = "elem"
+		if m := unsafeRoot.FindStringSubmatch(before); m != nil {
+			b = m[1]
+		}
+	}
 	return b + "_" + after
 }
 
